@@ -57,6 +57,12 @@
 (* afterwards (kept as a counterexample generator: when the hook raises the *)
 (* entry stays, the re-join of that endpoint is dropped as a duplicate and  *)
 (* a current member is not eligible: C05.membership).                       *)
+(* JoinWaits = TRUE is base.py as it is (__OnServerSetJoin starts with      *)
+(* __init_done.wait(), like the leave callback); FALSE is the variant whose *)
+(* join callback does not wait (kept as a counterexample generator: a join  *)
+(* delivered while GetServers is loading registers the member and creates a *)
+(* node, _OpenImpl then resets _servers = {} and adds the listed member     *)
+(* again: two nodes for one member, of which a leave removes only one).     *)
 (***************************************************************************)
 EXTENDS BalancerAbs
 
@@ -65,6 +71,7 @@ CONSTANTS Eps,        \* endpoint names
           None,
           Calls,      \* calls that may be parked behind the open ({} = gate for requests not modelled)
           GateBySubscription,
+          JoinWaits,  \* __OnServerSetJoin waits for __init_done (base.py as it is)
           PopFirst,   \* __RemoveServer pops the _servers entry before the subclass hook (base.py as it is)
           BadClose    \* node objects (numbered in creation order) whose channel's Close() raises
 
@@ -177,11 +184,21 @@ WorkerRun ==
   /\ wpc = "ready"
   /\ LET items == (IF cur = None THEN <<>> ELSE <<cur>>) \o q
      IN IF ~initDone
-        THEN \* the first callback parks in __init_done.wait()
-             /\ cur' = Head(items)
-             /\ q' = Tail(items)
-             /\ wpc' = "gate"
-             /\ UNCHANGED <<servers, live, nn, abs, viol>>
+        THEN IF ~JoinWaits /\ Head(items)[1] = "J"
+             THEN \* the variant whose join callback does not wait: delivered at once
+                  LET st == OnJoin(St0, Head(items)[2])
+                  IN /\ servers' = st.servers
+                     /\ live' = st.live
+                     /\ nn' = st.nn
+                     /\ Emit(st.evs \o <<EndEv>>)
+                     /\ cur' = None
+                     /\ q' = Tail(items)
+                     /\ wpc' = IF Tail(items) = <<>> THEN "wait" ELSE "ready"
+             ELSE \* the first callback parks in __init_done.wait()
+                  /\ cur' = Head(items)
+                  /\ q' = Tail(items)
+                  /\ wpc' = "gate"
+                  /\ UNCHANGED <<servers, live, nn, abs, viol>>
         ELSE LET st == FoldLeft(Deliver, St0, items)
              IN /\ servers' = st.servers
                 /\ live' = st.live
@@ -260,6 +277,9 @@ QuietOK == Quiescent => QCheck(abs, [e |-> "Q", hasE |-> 1, elig |-> Elig]) = "o
 \* A call that completed (timed out) while parked is never dispatched: its sink stack is
 \* already drained, so the load taken for it would never be given back (C04.conserved).
 NoDeadDispatch == \A c \in Calls : cst[c] # "deaddisp"
+
+\* never two nodes in the heap for one member
+NoDuplicateNodes == \A e \in Eps : Len(live[e]) <= 1
 
 Structural ==
   /\ abs.S = T
